@@ -370,7 +370,8 @@ class FmtStr:
             end = start
         if len(new_str) == 0 and end == start:
             return self
-        new_fs = new_str if isinstance(new_str, FmtStr) else fmtstr(new_str)
+        # (a plain str is inserted as it is, unformatted - not parsed for escape codes)
+        new_fs = new_str if isinstance(new_str, FmtStr) else FmtStr(Chunk(new_str))
         new_components = []
         inserted = False
         tail = None
